@@ -213,10 +213,12 @@ impl<F> FnGraph<F> {
         }
 
         stream::poll_fn(move |context| {
-            match fn_done_rx.poll_recv(context) {
-                Poll::Pending => {}
-                Poll::Ready(None) => {}
-                Poll::Ready(Some(fn_id)) => graph_structure
+            // Process every completed function that has been reported so far.
+            //
+            // Stopping after the first one would leave later reports in the channel
+            // without a waker registered for them, stalling the stream.
+            while let Poll::Ready(Some(fn_id)) = fn_done_rx.poll_recv(context) {
+                graph_structure
                     .children(fn_id)
                     .iter(graph_structure)
                     .for_each(|(_edge_id, child_fn_id)| {
@@ -228,7 +230,7 @@ impl<F> FnGraph<F> {
                                 let _ = fn_ready_tx.try_send(child_fn_id);
                             }
                         }
-                    }),
+                    });
             }
 
             let poll = if let Some(fn_done_tx) = fn_done_tx.as_ref() {
